@@ -258,6 +258,13 @@ func registerOverrides(e *Engine) {
 		in.gateAt(in.str(a[0]))
 		return nil
 	})
+	e.reg(zz+"SetTiKVRegions", func(in *interp, fr *frame, a []value) value {
+		in.tkSplits = nil
+		for _, k := range a[0].([]value) {
+			in.tkSplits = append(in.tkSplits, in.sliceBytes(k.([]value)))
+		}
+		return nil
+	})
 	e.reg(zz+"GateLogs", func(in *interp, fr *frame, a []value) value {
 		in.logGates = append(in.logGates, in.str(a[0]))
 		return nil
